@@ -3,10 +3,11 @@
 Applies each patch to /repo, runs tools/run_all.sh quick with evidence redirected to a scratch dir, reverts."""
 import json, os, re, subprocess, sys, glob
 VER = os.path.dirname(os.path.dirname(os.path.abspath(__file__)))
-only = sys.argv[1:]
+TABLE_ONLY = '--table-only' in sys.argv
+only = [a for a in sys.argv[1:] if not a.startswith('--')]
 rows = []
-assert subprocess.run(['git', '-C', '/repo', 'status', '--porcelain'], capture_output=True, text=True).stdout.strip() == '', '/repo not clean'
-for d in sorted(glob.glob(os.path.join(VER, 'seeded', 'C*-*'))):
+assert TABLE_ONLY or subprocess.run(['git', '-C', '/repo', 'status', '--porcelain'], capture_output=True, text=True).stdout.strip() == '', '/repo not clean'
+for d in ([] if TABLE_ONLY else sorted(glob.glob(os.path.join(VER, 'seeded', 'C*-*')))):
     name = os.path.basename(d)
     if only and name not in only and name.split('-')[0] not in only:
         continue
